@@ -3,6 +3,7 @@ attribute is wrapped (same wrapper object in every bycycle namespace holding it,
 pickling by reference still works). The wrapper consults the active controller
 before and after the wrapped call: interruption points and yield points."""
 import functools
+import os
 import sys
 import threading
 import types
@@ -87,9 +88,12 @@ class Controller:
         self.sites_seen = set()
         self.log = []
         self.suspended = False
+        self.tracer = None
 
     def arm_interrupt(self, k):
         self.countdown = k
+        if self.tracer is not None:
+            self.tracer.ensure()
 
     def disarm(self):
         self.countdown = None
@@ -119,18 +123,61 @@ class Controller:
                 self.baton.yield_point(site)
 
 
-class activate:
-    def __init__(self, ctl):
+class LineTracer:
+    """Line-granularity pre-emption: every executed source line of the bycycle package (tests
+    excluded) is an interruption / yield point, via sys.settrace. An exception raised by the
+    trace function propagates into the traced frame at that line (and switches tracing off),
+    which is exactly an interrupt between two statements."""
+
+    def __init__(self, ctl, root):
         self.ctl = ctl
+        self.root = os.path.join(os.path.realpath(root), 'bycycle') + os.sep
+        self.lines = 0
+
+    def _global(self, frame, event, arg):
+        fn = frame.f_code.co_filename
+        if fn.startswith(self.root) and (os.sep + 'tests' + os.sep) not in fn:
+            return self._local
+        return None
+
+    def _local(self, frame, event, arg):
+        if event == 'line':
+            self.lines += 1
+            self.ctl.hit(('line', frame.f_code.co_name, frame.f_lineno), 'line')
+        return self._local
+
+    def install(self):
+        threading.settrace(self._global)
+        sys.settrace(self._global)
+
+    def ensure(self):
+        """Re-arm in the current thread (tracing is switched off when an interrupt was raised)."""
+        if sys.gettrace() is None:
+            sys.settrace(self._global)
+
+    def remove(self):
+        sys.settrace(None)
+        threading.settrace(None)
+
+
+class activate:
+    def __init__(self, ctl, line_root=None):
+        self.ctl = ctl
+        self.tracer = LineTracer(ctl, line_root) if line_root else None
 
     def __enter__(self):
         global ACTIVE
         install()
         ACTIVE = self.ctl
+        self.ctl.tracer = self.tracer
+        if self.tracer is not None:
+            self.tracer.install()
         return self.ctl
 
     def __exit__(self, *exc):
         global ACTIVE
+        if self.tracer is not None:
+            self.tracer.remove()
         ACTIVE = None
         return False
 
